@@ -908,16 +908,78 @@ package dig
 //@   ensures[C16:node-appended-to-this-scopes-graph,C05:node-appended-to-this-scopes-graph,C08:node-appended-to-this-scopes-graph]
 //@        len(s.gh.nodes) == old(len(s.gh.nodes)) + 1 && s.gh.nodes[old(len(s.gh.nodes))] != nil && s.gh.nodes[old(len(s.gh.nodes))].Wrapped == wrapped
 //@        && orders[s] == old(len(s.gh.nodes))
-//@   ensures[C16:no-graph-loses-or-reorders-a-node] forall g *graphHolder, j int :: existed(g) && 0 <= j && j < old(len(g.nodes)) ==> len(g.nodes) >= old(len(g.nodes)) && g.nodes[j] == old(g.nodes[j])
+//@   ensures[C16:no-graph-loses-or-reorders-a-node] (forall g *graphHolder :: { g.nodes } existed(g) ==> len(g.nodes) >= old(len(g.nodes))) && (forall g *graphHolder, j int :: existed(g) && 0 <= j && j < old(len(g.nodes)) ==> g.nodes[j] == old(g.nodes[j]))
 //@   ensures[C16:shallower-scopes-untouched] forall y *Scope :: existed(y) && y != s && y.nanc <= s.nanc ==> y.gh.nodes == old(y.gh.nodes) && orders[y] == old(orders[y])
 //@   ensures[C16:graph-stores-stay-separate] graphsSeparate() && childrenLinked()
 //@   ensures[C16:only-this-nodes-order-map-written] forall m map[*Scope]int :: existed(m) && m != orders ==> mapeq(m)
 //@   ensures[C03:adding-a-graph-node-runs-nothing] $nrun == old($nrun) && $ncb == old($ncb)
 //@   loop range s.childScopes #1: invariant[C16:own-node-stays-in-place] len(s.gh.nodes) == old(len(s.gh.nodes)) + 1 && s.gh.nodes[old(len(s.gh.nodes))] != nil
 //@        && s.gh.nodes[old(len(s.gh.nodes))].Wrapped == wrapped && orders[s] == old(len(s.gh.nodes))
-//@   loop range s.childScopes #1: invariant[C16:graphs-only-grow-so-far] forall g *graphHolder, j int :: existed(g) && 0 <= j && j < old(len(g.nodes)) ==> len(g.nodes) >= old(len(g.nodes)) && g.nodes[j] == old(g.nodes[j])
+//@   loop range s.childScopes #1: invariant[C16:graphs-only-grow-so-far] (forall g *graphHolder :: { g.nodes } existed(g) ==> len(g.nodes) >= old(len(g.nodes))) && (forall g *graphHolder, j int :: existed(g) && 0 <= j && j < old(len(g.nodes)) ==> g.nodes[j] == old(g.nodes[j]))
 //@   loop range s.childScopes #1: invariant[C16:shallower-scopes-untouched-so-far] forall y *Scope :: existed(y) && y != s && y.nanc <= s.nanc ==> y.gh.nodes == old(y.gh.nodes) && orders[y] == old(orders[y])
 //@   loop range s.childScopes #1: invariant[C16:stores-separate-so-far] graphsSeparate()
 //@   loop range s.childScopes #1: invariant[C16:children-linked-so-far] childrenLinked() && s.childScopes == old(s.childScopes)
 //@   loop range s.childScopes #1: invariant[C16:other-order-maps-kept-so-far] forall m map[*Scope]int :: existed(m) && m != orders ==> mapeq(m)
 //@   site call (*dig.Scope).newGraphNode #1: assert[C16:node-passed-on-to-every-child,C05:node-passed-on-to-every-child,C08:node-passed-on-to-every-child] $recv == s.childScopes[$i] && $arg0 == wrapped && $arg1 == orders
+
+// ---------------------------------------------------------------------------
+// registration: Provide (C06, C08, C09, C05, C16, C18)
+
+// shape contracts of the signature parsers (what the rest of the code relies on)
+//@ func newParamList(ctype, c) (pl, err)
+//@   trusted
+//@   requires ctype != nil && kind(ctype) == kFunc() && isScope(c)
+//@   modifies graphHolder.nodes, elems(*graphNode), map(constructorNode.orders)
+//@   allocates
+//@   ensures err == nil ==> pl.ctype == ctype && wfParamList(pl)
+//@   ensures (forall g *graphHolder :: { g.nodes } existed(g) ==> len(g.nodes) >= old(len(g.nodes))) && (forall g *graphHolder, j int :: existed(g) && 0 <= j && j < old(len(g.nodes)) ==> g.nodes[j] == old(g.nodes[j]))
+//@   ensures graphsSeparate() && childrenLinked()
+//@   ensures forall m map[*Scope]int :: existed(m) ==> mapeq(m)
+
+//@ func newResultList(ctype, opts) (rl, err)
+//@   trusted
+//@   requires ctype != nil && kind(ctype) == kFunc()
+//@   allocates
+//@   ensures err == nil ==> rl.ctype == ctype && wfResultList(rl) && noNestedLists(rl) && len(rl.resultIndexes) == numOut(ctype)
+//@   ensures graphsSeparate() && childrenLinked()
+
+//@ func (pl paramList) DotParam() (r)
+//@   trusted
+//@   allocates
+//@   ensures (fresh(r) || len(r) == 0) && (forall i int :: 0 <= i && i < len(r) ==> r[i] != nil && fresh(r[i]) && r[i].Node != nil && fresh(r[i].Node))
+
+//@ func (rl resultList) DotResult() (r)
+//@   trusted
+//@   allocates
+//@   ensures (fresh(r) || len(r) == 0) && (forall i int :: 0 <= i && i < len(r) ==> r[i] != nil && fresh(r[i]) && r[i].Node != nil && fresh(r[i].Node))
+
+//@ func newConstructorNode(ctor, s, origS, opts) (n, err)
+//@   requires ctor != nil && kind(typeOf(ctor)) == kFunc() && s != nil && origS != nil && childrenLinked() && graphsSeparate()
+//@   modifies graphHolder.nodes, elems(*graphNode), map(constructorNode.orders)
+//@   allocates
+//@   ensures[C08:node-knows-its-home-and-origin] err == nil ==> n != nil && fresh(n) && n.s == s && n.origS == origS && !n.called && n.ctor == ctor && n.callback == opts.Callback
+//@   ensures[C18:node-id-is-the-code-pointer] err == nil ==> n.id == codePtr(valueOf(ctor))
+//@   ensures[C16:new-node-is-in-its-home-graph,C05:new-node-is-in-its-home-graph] err == nil ==> len(s.gh.nodes) >= old(len(s.gh.nodes)) + 1 && n.orders != nil && fresh(n.orders)
+//@   ensures[C06:building-a-node-only-appends-graph-nodes] (forall g *graphHolder :: { g.nodes } existed(g) ==> len(g.nodes) >= old(len(g.nodes))) && (forall g *graphHolder, j int :: existed(g) && 0 <= j && j < old(len(g.nodes)) ==> g.nodes[j] == old(g.nodes[j]))
+//@   ensures[C06:tree-and-stores-kept] graphsSeparate() && childrenLinked()
+//@   ensures[C06:existing-order-maps-kept] forall m map[*Scope]int :: existed(m) ==> mapeq(m)
+//@   ensures[C03:building-a-node-runs-nothing] $nrun == old($nrun) && $ncb == old($ncb)
+
+// dest shares no storage with the child list of any scope
+//@ pure func notAChildList(d []*Scope) Bool = d.arr == 0 || (forall y *Scope :: { y.childScopes } allocated(y) ==> y.childScopes.arr != d.arr)
+
+//@ func (s *Scope) appendSubscopes(dest0) (r)
+//@   requires s != nil && childrenLinked() && childListsSeparate() && notAChildList(dest0)
+//@   modifies elems(*Scope)
+//@   allocates
+//@   ensures[C06:subtree-list-starts-with-the-scope] len(r) >= len(dest0) + 1 && r[len(dest0)] == s
+//@   ensures[C06:subtree-list-keeps-its-prefix] forall i int :: 0 <= i && i < len(dest0) ==> r[i] == old(dest0[i])
+//@   ensures[C06:subtree-list-holds-scopes] (forall i int :: 0 <= i && i < len(dest0) ==> old(dest0[i]) != nil && old(allocated(dest0[i]))) ==> (forall i int :: 0 <= i && i < len(r) ==> r[i] != nil && allocated(r[i]))
+//@   ensures[C06:listing-writes-only-the-list] keptExcept(dest0.arr, elems(ptr(Scope))) && (fresh(r) || r.arr == dest0.arr) && notAChildList(r)
+//@   ensures[C06:listing-keeps-the-tree] childrenLinked() && childListsSeparate()
+//@   loop range s.childScopes #1: invariant[C06:subtree-list-so-far] len(dest) >= len(dest0) + 1 && dest[len(dest0)] == s
+//@        && (forall i int :: 0 <= i && i < len(dest0) ==> dest[i] == old(dest0[i]))
+//@   loop range s.childScopes #1: invariant[C06:subtree-list-holds-scopes-so-far] (forall i int :: 0 <= i && i < len(dest0) ==> old(dest0[i]) != nil && old(allocated(dest0[i]))) ==> (forall i int :: 0 <= i && i < len(dest) ==> dest[i] != nil && allocated(dest[i]))
+//@   loop range s.childScopes #1: invariant[C06:listing-writes-only-the-list-so-far] keptExcept(dest0.arr, elems(ptr(Scope))) && (fresh(dest) || dest.arr == dest0.arr) && notAChildList(dest)
+//@   loop range s.childScopes #1: invariant[C06:listing-keeps-the-tree-so-far] childrenLinked() && childListsSeparate() && s.childScopes == old(s.childScopes)
+//@   site call (*dig.Scope).appendSubscopes #1: assert[C06:every-child-subtree-listed] $recv == s.childScopes[$i] && $arg0 == dest
